@@ -461,9 +461,9 @@ func main() {
 	r := ev.Start("C43", ev.ModelChecking)
 	scratch = sw.NewDir("verif-c43-")
 	finish := func() { os.RemoveAll(scratch); r.Finish() }
-	maxDepth = 3
+	maxDepth = 4
 	if r.Thorough() {
-		maxDepth = 4
+		maxDepth = 0 // until no new state appears (observed: depth 6, ~350 states)
 	}
 	cfgs := []*config{{WC: false}, {WC: true}}
 	for _, c := range cfgs {
@@ -520,7 +520,7 @@ func main() {
 		}
 	}
 	r.Exhaustive(exhaustive)
-	r.Rule(fmt.Sprintf("2 shards (without / with write-cache holding flushed and cached objects) x BFS over SetMode(m), m in {RW, RO, DEG, DRO}, each with one injected failure in {none, metabase open, blobstor close, blobstor open, blobstor init, write-cache directory} up to depth %d, deduplicated by (reported mode, actual component modes, on-disk files); after every step the probe battery and the return-to-read-write check run on that instance; non-trivial = new state", maxDepth))
+	r.Rule(fmt.Sprintf("2 shards (without / with write-cache holding flushed and cached objects) x BFS over SetMode(m), m in {RW, RO, DEG, DRO}, each with one injected failure in {none, metabase open, blobstor close, blobstor open, blobstor init, write-cache directory} up to depth %d (0 = to fixpoint), deduplicated by (reported mode, actual component modes, on-disk files); after every step the probe battery and the return-to-read-write check run on that instance; non-trivial = new state", maxDepth))
 	r.Assume("probe objects accepted in degraded mode (no metabase) are not required to be visible after returning to read-write (docs/shard-modes.md warns about that mode)",
 		"failures are injected at the component boundary: bbolt OpenFile hook, a common.Storage wrapper around the FSTree, a regular file in place of the write-cache directory; one failure per step, healed before the next step",
 		"single-threaded: no requests race with the mode change")
